@@ -124,7 +124,7 @@ def register(db):
             ("failed-conversion-keeps-input", "implies(called('warnings.warn') == 1, result is value)"),
             ("warning-only-when-lenient", "implies(called('warnings.warn') == 1, not config.fail_on_converter_warnings)"),
         ],
-        raises={"ParserError": "config.fail_on_converter_warnings and called('warnings.warn') == 0"}, returns="u:Any",
+        raises={"ParserError": "config.fail_on_converter_warnings and called('warnings.warn') == 0"}, returns="u:Any|None",
         properties=P + ["C15"],
     ))
     # ------------------------------------------------------------------ parser end event
